@@ -34,7 +34,7 @@ Next == Mode = "hist" /\ Len(given) < MaxCalls /\ \E x \in SuppliedHist : CondWh
 Spec == Init /\ [][Next]_vars
 
 Backends == {"mysql", "pg", "sqlite"}
-Rendered(B) == IF contents.k = "empty" THEN "SELECT 1" ELSE "SELECT 1 WHERE " \o RenderI(B, FALSE, CondToExpr(contents))
+Rendered(B) == IF contents.k = "empty" THEN "SELECT 1" ELSE "SELECT 1 WHERE " \o RenderI(B, NoOpt, CondToExpr(contents))
 Viol == {B \in Backends : Reasons(B, PredicateOf(B, Rendered(B), "WHERE"), given) # {}}
 Check == Viol = {} \/ PrintT(<<"MV", ToJson([given |-> given, where |-> Viol])>>)
 \* a stored holder is never a bare negated/any group merged by mistake: structural sanity
